@@ -240,7 +240,7 @@ theorem fmtFbody_head (p : Nat) (x : Rat) : ∃ c cs, fmtFbody p x = c :: cs ∧
   unfold fmtFbody signStr fixedBody
   obtain ⟨c, cs, hcs, hc⟩ := natDigits_head (scaledAbs p x / 10 ^ p)
   by_cases hx : x < 0
-  · refine ⟨'-', _, ?_, Or.inr rfl⟩
+  · refine ⟨'-', natDigits (scaledAbs p x / 10 ^ p) ++ (if p = 0 then [] else '.' :: fixDigits p (scaledAbs p x)), ?_, Or.inr rfl⟩
     simp only [hx, decide_true, if_true, List.singleton_append]
   · refine ⟨c, cs ++ (if p = 0 then [] else '.' :: fixDigits p (scaledAbs p x)), ?_, Or.inl hc⟩
     simp [hx, hcs]
@@ -252,5 +252,93 @@ theorem xh_mass (m : Rat) (rest : List Str) (h : XHdr) (hn : h.n.isNone = false)
   obtain ⟨c, cs, e, hc⟩ := fmtFbody_head 4 m
   rw [fmtF_zero, e]
   exact xh_break c cs hc rest h hn
+
+def auxLine (p : Str × Nat) : Str :=
+  "auxiliary[".toList ++ natDigits p.2 ++ "] = ".toList ++ p.1 ++ " [au]".toList
+
+/-- index/name pairs the reader collects from the `auxiliary[i] = name` records -/
+def auxPairs (l : List Str) (k : Nat) : List (Nat × Str) := (l.zipIdx k).map (fun p => (p.2, p.1))
+
+theorem auxPairs_cons (a : Str) (l : List Str) (k : Nat) : auxPairs (a :: l) k = (k, a) :: auxPairs l (k + 1) := by
+  simp [auxPairs, List.zipIdx_cons]
+
+theorem xh_auxes (l : List Str) : ∀ (k : Nat) (h : XHdr) (rest : List Str), h.n.isNone = false →
+    (∀ nm ∈ l, IsTok nm) → (∀ p ∈ h.aux, p.1 < k) →
+    xcfgHeader ((l.zipIdx k).map auxLine ++ rest) h = xcfgHeader rest { h with aux := h.aux ++ auxPairs l k } := by
+  induction l with
+  | nil => intro k h rest _ _ _; simp [auxPairs]
+  | cons a l ih =>
+    intro k h rest hn htok hlt
+    have hf : h.aux.filter (fun p => p.1 != k) = h.aux := by
+      apply List.filter_eq_self.2
+      intro p hp
+      have := hlt p hp
+      simp only [bne_iff_ne, ne_eq]
+      omega
+    rw [List.zipIdx_cons, List.map_cons, List.cons_append]
+    show xcfgHeader (("auxiliary[".toList ++ natDigits k ++ "] = ".toList ++ a ++ " [au]".toList) :: _) h = _
+    rw [xh_aux k a (htok a (by simp)) _ h hn, hf,
+      ih (k + 1) { h with aux := h.aux ++ [(k, a)] } rest hn (fun nm hnm => htok nm (by simp [hnm]))]
+    · simp [auxPairs_cons]
+    · intro p hp
+      simp only [List.mem_append, List.mem_singleton] at hp
+      rcases hp with hp | rfl
+      · have := hlt p hp; omega
+      · simp
+
+theorem auxPairs_foldl_max (l : List Str) : ∀ (k m : Nat),
+    ((auxPairs l k).map (·.1)).foldl max m = if l = [] then m else max m (k + l.length - 1) := by
+  induction l with
+  | nil => intro k m; simp [auxPairs]
+  | cons a l ih =>
+    intro k m
+    rw [auxPairs_cons, List.map_cons, List.foldl_cons, ih (k + 1) (max m k)]
+    by_cases hl : l = []
+    · subst hl; simp
+    · simp only [hl, if_false, List.length_cons, reduceCtorEq]
+      have : 0 < l.length := List.length_pos_iff.2 hl
+      omega
+
+theorem auxPairs_isEmpty (l : List Str) (k : Nat) : (auxPairs l k).isEmpty = l.isEmpty := by
+  cases l <;> simp [auxPairs]
+
+/-- the reader's count of auxiliaries (`max(keys) + 1`) is the number of names written -/
+theorem auxnum_eq (l : List Str) :
+    (if (auxPairs l 0).isEmpty then 0 else ((auxPairs l 0).map (·.1)).foldl max 0 + 1) = l.length := by
+  rw [auxPairs_isEmpty, auxPairs_foldl_max]
+  cases l with
+  | nil => rfl
+  | cons a l => simp
+
+theorem auxPairs_find (l : List Str) : ∀ (k i : Nat) (hi : i < l.length),
+    (auxPairs l k).find? (fun p => p.1 == k + i) = some (k + i, l[i]) := by
+  induction l with
+  | nil => intro k i hi; simp at hi
+  | cons a l ih =>
+    intro k i hi
+    rw [auxPairs_cons]
+    cases i with
+    | zero => simp
+    | succ i =>
+      have hne : (k == k + (i + 1)) = false := by simp
+      rw [List.find?_cons]
+      simp only [hne]
+      have := ih (k + 1) i (by simpa using hi)
+      rw [show k + (i + 1) = k + 1 + i by omega]
+      simpa using this
+
+/-- the reader's list of auxiliary names is the list written -/
+theorem auxNames_eq (l : List Str) :
+    (List.range l.length).map (fun i =>
+      match (auxPairs l 0).find? (fun p => p.1 == i) with
+      | some p => p.2
+      | none => "aux".toList ++ natDigits i) = l := by
+  apply List.ext_getElem
+  · simp
+  · intro i h1 h2
+    have hi : i < l.length := h2
+    have := auxPairs_find l 0 i hi
+    simp only [Nat.zero_add] at this
+    simp [this]
 
 end DS.Formats
